@@ -11,6 +11,13 @@ BASELINE_CMD = ("cd /repo && env -u STEREOMOLGRAPH_VERIF /venv/bin/python -m pyt
 
 # pid -> (category, technique, text, note, design_ref)
 CHECKS = {
+    "C01": (
+        "exploration",
+        "metamorphic property-based testing (Hypothesis byte tape -> recipe; renamed / re-ordered / re-spelled variant must compare equal), recipe-level delta debugging",
+        "A graph and a variant that is the same graph by construction (bijective renaming with arbitrary ints, shuffled insertion order, every descriptor re-expressed by an independent geometric symmetry element, or the library's own relabel_atoms in both modes) must be == in both directions, is_isomorphic and reflexive, for all four classes incl. empty graphs, isolated atoms, several components, placeholders, unspecified parity, all bond roles and stereo changes. Sampling is the right level: the domain is infinite and the relation is known by construction, so no oracle search is needed and thousands of cases per run are cheap.",
+        "Trusted: vp/symmetry.py re-expression (validated exhaustively against the descriptor classes by C04) and the model's relabel. Only the never-misses direction; C02 is the converse.",
+        "DESIGN.md section 4 C01",
+    ),
     "C04": (
         "exploration",
         "exhaustive enumeration of the finite descriptor domain against a geometric symmetry oracle",
